@@ -302,10 +302,672 @@ theorem strip_nil : strip [] = [] := rfl
 
 /-! ### character facts -/
 
+theorem isAsciiDigit_range (c : Char) (h : isAsciiDigit c = true) :
+    48 ≤ c.toNat ∧ c.toNat ≤ 57 := by
+  unfold isAsciiDigit at h
+  rw [Bool.and_eq_true, decide_eq_true_eq, decide_eq_true_eq] at h
+  have h1 := UInt32.le_iff_toNat_le.mp (Char.le_def.mp h.1)
+  have h2 := UInt32.le_iff_toNat_le.mp (Char.le_def.mp h.2)
+  have e1 : '0'.val.toNat = 48 := by decide
+  have e2 : '9'.val.toNat = 57 := by decide
+  rw [e1] at h1; rw [e2] at h2
+  exact ⟨h1, h2⟩
+
 theorem isAsciiDigit_not_space (c : Char) (h : isAsciiDigit c = true) : isPySpace c = false := by
-  have h' : 48 ≤ c.toNat ∧ c.toNat ≤ 57 := by
-    simpa [isAsciiDigit, Char.le_def, UInt32.le_iff_toNat_le, Char.toNat] using h
-  simp [isPySpace]
+  have h' := isAsciiDigit_range c h
+  unfold isPySpace
+  simp only [Bool.or_eq_false_iff, Bool.and_eq_false_iff, decide_eq_false_iff_not,
+    beq_eq_false_iff_ne]
   omega
+
+/-- blank or TAB -/
+def IsBlank (c : Char) : Prop := c = ' ' ∨ c = '\t'
+
+theorem IsBlank.space {c : Char} (h : IsBlank c) : isPySpace c = true := by
+  rcases h with rfl | rfl <;> decide
+theorem IsBlank.ne_dot {c : Char} (h : IsBlank c) : c ≠ '.' := by
+  rcases h with rfl | rfl <;> decide
+theorem IsBlank.ne_colon {c : Char} (h : IsBlank c) : c ≠ ':' := by
+  rcases h with rfl | rfl <;> decide
+theorem IsBlank.not_digit {c : Char} (h : IsBlank c) : isAsciiDigit c = false := by
+  rcases h with rfl | rfl <;> decide
+
+/-! ### fragments -/
+
+theorem dotStarts_of_head (s : Str) (h : s.head? ≠ some '.') : dotStarts s = [s] := by
+  unfold dotStarts
+  split
+  · simp at h
+  · rfl
+
+theorem splitFirst_append (ch : Char) (a r : Str) (ha : ∀ c ∈ a, c ≠ ch) :
+    splitFirst ch (a ++ ch :: r) = some (a, r) := by
+  obtain ⟨h1, h2⟩ := takeWhile_append_stop (p := (· != ch)) a ch r
+    (by intro x hx; simpa using ha x hx) (by simp)
+  simp only [splitFirst, h1, h2]
+
+theorem splitFirst_none (ch : Char) (s : Str) (h : ∀ c ∈ s, c ≠ ch) : splitFirst ch s = none := by
+  obtain ⟨_, h2⟩ := takeWhile_all (p := (· != ch)) s (by intro x hx; simpa using h x hx)
+  simp only [splitFirst, h2]
+
+/-- the name fragment on `a . r` when `a` is non-empty and period-free: a single alternative -/
+theorem nameDefault_split (a r : Str) (hne : a ≠ []) (ha : ∀ c ∈ a, c ≠ '.') :
+    nameDefault (a ++ '.' :: r) = [(some a, r)] := by
+  have hhead : (a ++ '.' :: r).head? ≠ some '.' := by
+    cases a with
+    | nil => exact absurd rfl hne
+    | cons c a => simpa using ha c (by simp)
+  simp [nameDefault, dotStarts_of_head _ hhead, splitFirst_append '.' a r ha]
+
+/-- the optional numeric group `([0-9]+\s)?` of the unit fragment applies: digits, one white-space
+character, a run of non-space characters, then white space -/
+theorem unitDefault_group (ds : Str) (b1 : Char) (sfx : Str) (b2 : Char) (t : Str)
+    (hne : ds ≠ []) (hd : ∀ c ∈ ds, isAsciiDigit c = true)
+    (h1 : isPySpace b1 = true) (hsfx : ∀ c ∈ sfx, isPySpace c = false) (h2 : isPySpace b2 = true) :
+    ∃ tl, unitDefault (ds ++ b1 :: (sfx ++ b2 :: t)) = (some (ds ++ b1 :: sfx), b2 :: t) :: tl := by
+  have hb1 : isAsciiDigit b1 = false := by
+    cases h : isAsciiDigit b1 with
+    | false => rfl
+    | true => rw [isAsciiDigit_not_space b1 h] at h1; exact absurd h1 (by simp)
+  obtain ⟨e1, e2⟩ := takeWhile_append_stop (p := isAsciiDigit) ds b1 (sfx ++ b2 :: t) hd hb1
+  obtain ⟨e3, e4⟩ := takeWhile_append_stop (p := fun c => !isPySpace c) sfx b2 t
+    (by intro x hx; simp [hsfx x hx]) (by simp [h2])
+  obtain ⟨tl, htl⟩ := shrinks_head sfx (b2 :: t)
+  unfold unitDefault
+  simp only [e1, e2]
+  cases ds with
+  | nil => exact absurd rfl hne
+  | cons d ds' =>
+    simp only [e3, e4, h1, htl, ↓reduceIte, List.map_cons, List.cons_append]
+    exact ⟨_, rfl⟩
+
+/-- the optional numeric group does not apply -/
+theorem unitDefault_nogroup (s : Str)
+    (h : s.takeWhile isAsciiDigit = [] ∨ s.dropWhile isAsciiDigit = [] ∨
+      ∃ c tl, s.dropWhile isAsciiDigit = c :: tl ∧ isPySpace c = false) :
+    unitDefault s =
+      (shrinks (s.takeWhile (fun c => !isPySpace c)) (s.dropWhile (fun c => !isPySpace c))).map
+        fun ar => (some ar.1, ar.2) := by
+  unfold unitDefault
+  rcases h with h | h | ⟨c, tl, h, hc⟩
+  · simp only [h, List.nil_append]
+  · simp only [h]
+    cases s.takeWhile isAsciiDigit <;> simp
+  · simp only [h]
+    cases s.takeWhile isAsciiDigit <;> simp [hc]
+
+/-! ### pattern configuration -/
+
+/-- outside ~Parameter, a line with a period before its first colon, whose first ".." (if any) is not
+before the last colon when the section is ~Curves, gets the single default pattern -/
+theorem configurePatterns_default (line : Str) (sec : SecName) (hsec : sec ≠ .parameter)
+    (hcolon : ':' ∈ line) (hdot : '.' ∈ line.takeWhile (· != ':'))
+    (hcurves : sec = .curves → ∀ dd dc, findDotDot line = some dd → rfindColon line = some dc →
+      ¬ dd < dc) :
+    configurePatterns line sec = [⟨.dflt, .dflt, .greedyColon, .rest⟩] := by
+  have h1 : line.contains ':' = true := List.contains_iff_mem.mpr hcolon
+  have h2 : (line.takeWhile (· != ':')).contains '.' = true := List.contains_iff_mem.mpr hdot
+  have h3 : (sec == SecName.parameter) = false := by simpa using hsec
+  unfold configurePatterns
+  simp only [h1, h2, h3, Bool.not_true, Bool.and_false, Bool.false_eq_true, ↓reduceIte,
+    List.nil_append]
+  congr 2
+  split
+  · rename_i hc
+    have hcv : sec = .curves := by
+      rw [Bool.and_eq_true] at hc; simpa using hc.2
+    split
+    · rename_i dd dc hdd hdc
+      rw [if_neg (hcurves hcv dd dc hdd hdc)]
+    · rfl
+  · rfl
+
+/-- in ~Parameter, a line with a period before its first colon gets the clock-time pattern first and
+the default pattern second -/
+theorem configurePatterns_parameter (line : Str)
+    (hcolon : ':' ∈ line) (hdot : '.' ∈ line.takeWhile (· != ':')) :
+    configurePatterns line .parameter =
+      [⟨.dflt, .dflt, .time, .rest⟩, ⟨.dflt, .dflt, .greedyColon, .rest⟩] := by
+  have h1 : line.contains ':' = true := List.contains_iff_mem.mpr hcolon
+  have h2 : (line.takeWhile (· != ':')).contains '.' = true := List.contains_iff_mem.mpr hdot
+  unfold configurePatterns
+  simp only [h1, h2, Bool.not_true, Bool.and_false, Bool.false_eq_true, ↓reduceIte]
+  simp
+
+/-! ### the unit fragment as a search -/
+
+theorem shrinks_mem (run rest a r : Str) (h : (a, r) ∈ shrinks run rest) : a ++ r = run ++ rest := by
+  unfold shrinks at h
+  obtain ⟨k, _, hk⟩ := List.mem_map.mp h
+  have h1 : a = run.take k := (Prod.mk.inj hk).1.symm
+  have h2 : r = run.drop k ++ rest := (Prod.mk.inj hk).2.symm
+  rw [h1, h2, ← List.append_assoc, List.take_append_drop]
+
+/-- every alternative of the unit fragment splits its input -/
+theorem unitDefault_mem (s : Str) (u : Option Str) (r : Str) (h : (u, r) ∈ unitDefault s) :
+    ∃ X, s = X ++ r := by
+  unfold unitDefault at h
+  rcases List.mem_append.mp h with h | h
+  · have hs := List.takeWhile_append_dropWhile (p := isAsciiDigit) (l := s)
+    revert h
+    cases hd : s.takeWhile isAsciiDigit with
+    | nil => simp
+    | cons d ds =>
+      cases ha : s.dropWhile isAsciiDigit with
+      | nil => simp
+      | cons sp tl =>
+        simp only
+        split
+        · intro h
+          obtain ⟨⟨a, r'⟩, har, he⟩ := List.mem_map.mp h
+          have := shrinks_mem _ _ _ _ har
+          rw [List.takeWhile_append_dropWhile] at this
+          have hr : r' = r := (Prod.mk.inj he).2
+          subst hr
+          refine ⟨d :: ds ++ sp :: a, ?_⟩
+          rw [← hs, hd, ha, ← this]; simp
+        · simp
+  · obtain ⟨⟨a, r'⟩, har, he⟩ := List.mem_map.mp h
+    have := shrinks_mem _ _ _ _ har
+    rw [List.takeWhile_append_dropWhile] at this
+    have hr : r' = r := (Prod.mk.inj he).2
+    subst hr
+    exact ⟨a, this.symm⟩
+
+/-- shapes of the text captured by the unit fragment: either a run of non-space characters on which
+the optional numeric group cannot apply, or `digits white-space non-space-run` (the group applies) -/
+def UnitCap (cap T : Str) : Prop :=
+  ((∀ c ∈ cap, isPySpace c = false) ∧
+    ((∃ c ∈ cap, isAsciiDigit c = false) ∨
+      ∀ c, T.head? = some c → isAsciiDigit c = false ∧ (cap = [] ∨ isPySpace c = false))) ∨
+  ∃ ds b1 u, cap = ds ++ b1 :: u ∧ ds ≠ [] ∧ (∀ c ∈ ds, isAsciiDigit c = true) ∧
+    isPySpace b1 = true ∧ ∀ c ∈ u, isPySpace c = false
+
+theorem unitDefault_search_plain {β} (unit T : Str) (g : Option Str × Str → Option β) (b : β)
+    (hu : ∀ c ∈ unit, isPySpace c = false)
+    (hng : (∃ c ∈ unit, isAsciiDigit c = false) ∨
+      ∀ c, T.head? = some c → isAsciiDigit c = false ∧ (unit = [] ∨ isPySpace c = false))
+    (hback : ∀ x1 x2, T.takeWhile (fun c => !isPySpace c) = x1 ++ x2 → x1 ≠ [] →
+      g (some (unit ++ x1), x2 ++ T.dropWhile (fun c => !isPySpace c)) = none)
+    (hok : g (some unit, T) = some b) :
+    firstSome (unitDefault (unit ++ T)) g = some b := by
+  have hcond : (unit ++ T).takeWhile isAsciiDigit = [] ∨ (unit ++ T).dropWhile isAsciiDigit = [] ∨
+      ∃ c tl, (unit ++ T).dropWhile isAsciiDigit = c :: tl ∧ isPySpace c = false := by
+    by_cases hall : ∀ c ∈ unit, isAsciiDigit c = true
+    · have hT : ∀ c, T.head? = some c → isAsciiDigit c = false ∧ (unit = [] ∨ isPySpace c = false) := by
+        rcases hng with ⟨c, hc, hcd⟩ | h
+        · rw [hall c hc] at hcd; exact absurd hcd (by simp)
+        · exact h
+      obtain ⟨e1, e2⟩ := takeWhile_append_all (p := isAsciiDigit) unit T hall
+      cases T with
+      | nil => right; left; rw [e2]; rfl
+      | cons t T =>
+        obtain ⟨ht1, ht2⟩ := hT t (by simp)
+        rcases ht2 with rfl | ht2
+        · left; simp [ht1]
+        · right; right
+          exact ⟨t, T, by rw [e2]; simp [ht1], ht2⟩
+    · right; right
+      have hne : unit.dropWhile isAsciiDigit ≠ [] := fun h => hall (dropWhile_eq_nil unit h)
+      cases hdw : unit.dropWhile isAsciiDigit with
+      | nil => exact absurd hdw hne
+      | cons d tl =>
+        refine ⟨d, tl ++ T, ?_, ?_⟩
+        · rw [List.dropWhile_append, hdw]; simp
+        · apply hu
+          have : d ∈ unit.dropWhile isAsciiDigit := by rw [hdw]; simp
+          exact (List.dropWhile_suffix _).subset this
+  rw [unitDefault_nogroup _ hcond, firstSome_map]
+  obtain ⟨e1, e2⟩ := takeWhile_append_all (p := fun c => !isPySpace c) unit T
+    (by intro x hx; simp [hu x hx])
+  rw [e1, e2, firstSome_shrinks_skip unit _ _ _ hback, List.takeWhile_append_dropWhile]
+  obtain ⟨tl, htl⟩ := shrinks_head unit T
+  rw [htl]
+  exact firstSome_head _ _ _ _ hok
+
+theorem unitDefault_search_group {β} (ds : Str) (b1 : Char) (u T : Str)
+    (g : Option Str × Str → Option β) (b : β)
+    (hne : ds ≠ []) (hd : ∀ c ∈ ds, isAsciiDigit c = true) (h1 : isPySpace b1 = true)
+    (hu : ∀ c ∈ u, isPySpace c = false)
+    (hback : ∀ x1 x2, T.takeWhile (fun c => !isPySpace c) = x1 ++ x2 → x1 ≠ [] →
+      g (some (ds ++ b1 :: u ++ x1), x2 ++ T.dropWhile (fun c => !isPySpace c)) = none)
+    (hok : g (some (ds ++ b1 :: u), T) = some b) :
+    firstSome (unitDefault (ds ++ b1 :: u ++ T)) g = some b := by
+  have hb1 : isAsciiDigit b1 = false := by
+    cases h : isAsciiDigit b1 with
+    | false => rfl
+    | true => rw [isAsciiDigit_not_space b1 h] at h1; exact absurd h1 (by simp)
+  have hrw : ds ++ b1 :: u ++ T = ds ++ b1 :: (u ++ T) := by simp
+  obtain ⟨e1, e2⟩ := takeWhile_append_stop (p := isAsciiDigit) ds b1 (u ++ T) hd hb1
+  obtain ⟨e3, e4⟩ := takeWhile_append_all (p := fun c => !isPySpace c) u T
+    (by intro x hx; simp [hu x hx])
+  rw [hrw]
+  unfold unitDefault
+  simp only [e1, e2]
+  cases ds with
+  | nil => exact absurd rfl hne
+  | cons d ds' =>
+    simp only [h1, ↓reduceIte, e3, e4]
+    apply firstSome_append_some
+    rw [firstSome_map]
+    rw [firstSome_shrinks_skip u _ _ _ (by
+      intro x1 x2 hx hx1
+      have := hback x1 x2 hx hx1
+      simpa using this), List.takeWhile_append_dropWhile]
+    obtain ⟨tl, htl⟩ := shrinks_head u T
+    rw [htl]
+    exact firstSome_head _ _ _ _ hok
+
+/-- the unit fragment on `cap ++ T`: the search stops at the capture `cap` when the continuation
+succeeds there and fails on every longer capture -/
+theorem unitDefault_stage {β} (cap T : Str) (g : Option Str × Str → Option β) (b : β)
+    (hcap : UnitCap cap T)
+    (hback : ∀ x1 x2, T.takeWhile (fun c => !isPySpace c) = x1 ++ x2 → x1 ≠ [] →
+      g (some (cap ++ x1), x2 ++ T.dropWhile (fun c => !isPySpace c)) = none)
+    (hok : g (some cap, T) = some b) :
+    firstSome (unitDefault (cap ++ T)) g = some b := by
+  rcases hcap with ⟨hu, hng⟩ | ⟨ds, b1, u, rfl, hne, hd, h1, hu⟩
+  · exact unitDefault_search_plain cap T g b hu hng hback hok
+  · exact unitDefault_search_group ds b1 u T g b hne hd h1 hu hback hok
+
+/-- in `V : D` with `V` empty or starting with white space, a non-empty non-space run at the start
+swallows the colon, and what remains is a suffix of `D` -/
+theorem run_swallows_colon (V D x1 x2 : Str)
+    (hV : ∀ c, V.head? = some c → isPySpace c = true)
+    (hx : (V ++ ':' :: D).takeWhile (fun c => !isPySpace c) = x1 ++ x2) (hne : x1 ≠ []) :
+    V = [] ∧ ∃ d1, D = d1 ++ (x2 ++ (V ++ ':' :: D).dropWhile (fun c => !isPySpace c)) := by
+  cases V with
+  | cons v V =>
+    have := hV v (by simp)
+    simp [this] at hx
+    exact absurd hx.1 hne
+  | nil =>
+    refine ⟨rfl, ?_⟩
+    have hsplit := List.takeWhile_append_dropWhile (p := fun c => !isPySpace c) (l := ':' :: D)
+    simp only [List.nil_append] at hx ⊢
+    rw [hx] at hsplit
+    cases x1 with
+    | nil => exact absurd rfl hne
+    | cons c x1 =>
+      simp only [List.cons_append, List.append_assoc, List.cons.injEq] at hsplit
+      exact ⟨x1, hsplit.2.symm⟩
+
+/-- the unit fragment on `cap V : D` -/
+theorem unitDefault_stage_colon {β} (cap V D : Str) (g : Option Str × Str → Option β) (b : β)
+    (hcap : UnitCap cap (V ++ ':' :: D))
+    (hV : ∀ c, V.head? = some c → isPySpace c = true)
+    (hfail : V = [] → ∀ u d1 r, D = d1 ++ r → g (u, r) = none)
+    (hok : g (some cap, V ++ ':' :: D) = some b) :
+    firstSome (unitDefault (cap ++ V ++ ':' :: D)) g = some b := by
+  rw [List.append_assoc]
+  apply unitDefault_stage cap _ g b hcap _ hok
+  intro x1 x2 hx hne
+  obtain ⟨hVnil, d1, hd1⟩ := run_swallows_colon V D x1 x2 hV hx hne
+  exact hfail hVnil _ d1 _ hd1
+
+/-! ### the default pattern `name . unit value : descr` -/
+
+/-- continuation of the default pattern after the unit fragment -/
+def contGreedy (n : Option Str) : Option Str × Str → Option Fields := fun ur =>
+  firstSome (valueGreedyColon ur.2) fun vr =>
+    firstSome (descRest vr.2) fun dr => some (postProcess n ur.1 vr.1 dr.1)
+
+theorem matchPattern_default_eq (line : Str) :
+    matchPattern ⟨.dflt, .dflt, .greedyColon, .rest⟩ line =
+      firstSome (nameDefault line) fun nr => firstSome (unitDefault nr.2) (contGreedy nr.1) := rfl
+
+theorem contGreedy_ok (n u : Option Str) (V D : Str) (hD : ∀ c ∈ D, c ≠ ':') :
+    contGreedy n (u, V ++ ':' :: D) = some (postProcess n u (some V) (some D)) := by
+  obtain ⟨tl, h⟩ := valueGreedyColon_last V D hD
+  unfold contGreedy
+  simp only [h]
+  apply firstSome_head
+  simp [descRest, firstSome]
+
+theorem contGreedy_nocolon (n u : Option Str) (r : Str) (h : ∀ c ∈ r, c ≠ ':') :
+    contGreedy n (u, r) = none := by
+  unfold contGreedy
+  simp only [valueGreedyColon_nocolon r h]
+  rfl
+
+/-- the default pattern on `A . cap V : D` (`D` without colon) -/
+theorem matchPattern_default_ok (A cap V D : Str)
+    (hA : A ≠ []) (hAdot : ∀ c ∈ A, c ≠ '.')
+    (hcap : UnitCap cap (V ++ ':' :: D))
+    (hV : ∀ c, V.head? = some c → isPySpace c = true)
+    (hD : ∀ c ∈ D, c ≠ ':') :
+    matchPattern ⟨.dflt, .dflt, .greedyColon, .rest⟩ (A ++ '.' :: (cap ++ V ++ ':' :: D)) =
+      some (postProcess (some A) (some cap) (some V) (some D)) := by
+  rw [matchPattern_default_eq, nameDefault_split A _ hA hAdot, firstSome_singleton]
+  dsimp only
+  apply unitDefault_stage_colon cap V D _ _ hcap hV
+  · intro _ u d1 r hd
+    apply contGreedy_nocolon
+    intro c hc
+    exact hD c (by rw [hd]; simp [hc])
+  · exact contGreedy_ok _ _ _ _ hD
+
+/-- how the unit fragment captures a conformant unit followed by `V : D`: either the unit itself, or
+(non-empty all-digit unit followed by white space) the unit plus that one white-space character -/
+theorem unitCap_layout (unit V D : Str)
+    (hu : ∀ c ∈ unit, isPySpace c = false)
+    (hV : ∀ c, V.head? = some c → isPySpace c = true)
+    (hdig : unit ≠ [] → (∀ c ∈ unit, isAsciiDigit c = true) →
+      ∀ b1 V', V = b1 :: V' → ∀ c, V'.head? = some c → isPySpace c = true) :
+    ∃ cap V', cap ++ V' = unit ++ V ∧ UnitCap cap (V' ++ ':' :: D) ∧ strip cap = unit ∧
+      strip V' = strip V ∧ (∀ c, V'.head? = some c → isPySpace c = true) ∧
+      (V' = [] → V.length ≤ 1 ∧ (V ≠ [] → unit ≠ [] ∧ ∀ c ∈ unit, isAsciiDigit c = true)) := by
+  have hsu : strip unit = unit := strip_nospace unit hu
+  by_cases hgrp : unit ≠ [] ∧ ∀ c ∈ unit, isAsciiDigit c = true
+  · cases V with
+    | nil =>
+      refine ⟨unit, [], rfl, Or.inl ⟨hu, Or.inr ?_⟩, hsu, rfl, hV, fun _ => ⟨by simp, by simp⟩⟩
+      intro c hc
+      have : c = ':' := by simpa using hc.symm
+      subst this
+      exact ⟨by decide, Or.inr (by decide)⟩
+    | cons b1 V' =>
+      have hb1 : isPySpace b1 = true := hV b1 (by simp)
+      refine ⟨unit ++ [b1], V', by simp, Or.inr ⟨unit, b1, [], rfl, hgrp.1, hgrp.2, hb1, by simp⟩,
+        ?_, ?_, hdig hgrp.1 hgrp.2 b1 V' rfl, ?_⟩
+      · have := strip_pad [] unit [b1] (by simp) (by simpa using hb1)
+        simpa [hsu] using this
+      · have := strip_pad [b1] V' [] (by simpa using hb1) (by simp)
+        simpa using this.symm
+      · intro h; subst h; exact ⟨by simp, fun _ => hgrp⟩
+  · refine ⟨unit, V, rfl, Or.inl ⟨hu, ?_⟩, hsu, rfl, hV, ?_⟩
+    · by_cases hune : unit = []
+      · right
+        intro c hc
+        refine ⟨?_, Or.inl hune⟩
+        cases V with
+        | nil =>
+          have : c = ':' := by simpa using hc.symm
+          subst this; decide
+        | cons v V =>
+          have hcv : c = v := by simpa using hc.symm
+          subst hcv
+          have := hV c (by simp)
+          cases hd : isAsciiDigit c with
+          | false => rfl
+          | true => rw [isAsciiDigit_not_space c hd] at this; exact absurd this (by simp)
+      · left
+        have : ¬ ∀ c ∈ unit, isAsciiDigit c = true := fun h => hgrp ⟨hune, h⟩
+        simpa using this
+    · intro h; subst h; exact ⟨by simp, fun h => absurd rfl h⟩
+
+/-! ### where the first ".." of a laid-out line can be -/
+
+theorem getLast?_ne_of_forall {l : Str} {x : Char} (h : ∀ c ∈ l, c ≠ x) : l.getLast? ≠ some x :=
+  fun hl => h x (List.mem_of_getLast? hl) rfl
+
+theorem head?_ne_of_forall {l : Str} {x : Char} (h : ∀ c ∈ l, c ≠ x) : l.head? ≠ some x :=
+  fun hl => h x (List.mem_of_mem_head? hl) rfl
+
+theorem findDotDot_pad (a s b : Str) (ha : ∀ c ∈ a, c ≠ '.') (hb : ∀ c ∈ b, c ≠ '.')
+    (hs : findDotDot s = none) : findDotDot (a ++ s ++ b) = none := by
+  apply findDotDot_append_none _ _ _ (findDotDot_nodot b hb)
+  · exact fun h => head?_ne_of_forall hb h.2
+  · exact findDotDot_append_none _ _ (findDotDot_nodot a ha) hs
+      (fun h => getLast?_ne_of_forall ha h.1)
+
+/-- no ".." in `A . unit V` -/
+theorem findDotDot_prefix_none (A unit V : Str) (hA : ∀ c ∈ A, c ≠ '.')
+    (hu1 : unit.head? ≠ some '.') (hu2 : findDotDot unit = none) (hu3 : unit.getLast? ≠ some '.')
+    (hV1 : V.head? ≠ some '.') (hV2 : findDotDot V = none) :
+    findDotDot (A ++ '.' :: (unit ++ V)) = none := by
+  apply findDotDot_append_none _ _ (findDotDot_nodot A hA)
+  · rw [findDotDot_cons, findDotDot_append_none unit V hu2 hV2 (fun h => hu3 h.1)]
+    simp only [true_and, Option.map_none, ite_eq_right_iff]
+    intro h
+    rw [List.head?_append] at h
+    cases hh : unit.head? with
+    | none => rw [hh] at h; exact absurd (by simpa using h) hV1
+    | some c => rw [hh] at h hu1; exact absurd (by simpa using h) hu1
+  · exact fun h => getLast?_ne_of_forall hA h.1
+
+/-- the first ".." of `P : D`, when `P` has none, lies after the colon -/
+theorem findDotDot_after_colon (P D : Str) (hP : findDotDot P = none) (dd : Nat)
+    (h : findDotDot (P ++ ':' :: D) = some dd) : ¬ dd < P.length := by
+  rw [findDotDot_append_shift P _ hP (by simp)] at h
+  cases hd : findDotDot (':' :: D) with
+  | none => simp [hd] at h
+  | some k =>
+    rw [hd] at h
+    have : k + P.length = dd := by simpa using h
+    omega
+
+/-! ### `parseHeaderLine` on `A . unit V : D` outside ~Parameter -/
+
+theorem period_before_colon (A R : Str) (hAcolon : ∀ c ∈ A, c ≠ ':') :
+    '.' ∈ (A ++ '.' :: R).takeWhile (· != ':') := by
+  rw [(takeWhile_append_all (p := (· != ':')) A _ (by intro x hx; simpa using hAcolon x hx)).1]
+  simp
+
+theorem postProcess_eq (A cap V' D unit V : Str) (h1 : strip cap = unit) (h2 : strip V' = strip V)
+    (hulast : unit.getLast? ≠ some '.') :
+    postProcess (some A) (some cap) (some V') (some D) = ⟨strip A, unit, strip V, strip D⟩ := by
+  simp [postProcess, grp, h1, h2, hulast]
+
+theorem parse_default_ok (sec : SecName) (hsec : sec ≠ .parameter) (A cap V D : Str)
+    (hA : A ≠ []) (hAdot : ∀ c ∈ A, c ≠ '.') (hAcolon : ∀ c ∈ A, c ≠ ':')
+    (hcap : UnitCap cap (V ++ ':' :: D))
+    (hV : ∀ c, V.head? = some c → isPySpace c = true)
+    (hD : ∀ c ∈ D, c ≠ ':')
+    (hcurves : sec = .curves → findDotDot (A ++ '.' :: (cap ++ V)) = none) :
+    parseHeaderLine sec (A ++ '.' :: (cap ++ V ++ ':' :: D)) =
+      some (postProcess (some A) (some cap) (some V) (some D)) := by
+  have hcfg : configurePatterns (A ++ '.' :: (cap ++ V ++ ':' :: D)) sec =
+      [⟨.dflt, .dflt, .greedyColon, .rest⟩] := by
+    apply configurePatterns_default _ _ hsec
+    · simp
+    · exact period_before_colon A _ hAcolon
+    · intro hcv dd dc hdd hdc
+      have hline : A ++ '.' :: (cap ++ V ++ ':' :: D) = (A ++ '.' :: (cap ++ V)) ++ ':' :: D := by
+        simp
+      rw [hline] at hdd hdc
+      rw [rfindColon_last _ _ hD] at hdc
+      have := findDotDot_after_colon _ D (hcurves hcv) dd hdd
+      have hdc' : (A ++ '.' :: (cap ++ V)).length = dc := by simpa using hdc
+      omega
+  unfold parseHeaderLine
+  rw [hcfg, firstSome_singleton]
+  exact matchPattern_default_ok A cap V D hA hAdot hcap hV hD
+
+/-- round trip on `A . unit V : D` outside ~Parameter, `unit` conformant -/
+theorem parse_layout_ok (sec : SecName) (hsec : sec ≠ .parameter) (A unit V D : Str)
+    (hA : A ≠ []) (hAdot : ∀ c ∈ A, c ≠ '.') (hAcolon : ∀ c ∈ A, c ≠ ':')
+    (hu : ∀ c ∈ unit, isPySpace c = false) (hulast : unit.getLast? ≠ some '.')
+    (hV : ∀ c, V.head? = some c → isPySpace c = true)
+    (hdig : unit ≠ [] → (∀ c ∈ unit, isAsciiDigit c = true) →
+      ∀ b1 V', V = b1 :: V' → ∀ c, V'.head? = some c → isPySpace c = true)
+    (hD : ∀ c ∈ D, c ≠ ':')
+    (hcurves : sec = .curves →
+      unit.head? ≠ some '.' ∧ findDotDot unit = none ∧ findDotDot V = none) :
+    parseHeaderLine sec (A ++ '.' :: (unit ++ V ++ ':' :: D)) =
+      some ⟨strip A, unit, strip V, strip D⟩ := by
+  obtain ⟨cap, V', happ, hcap, hs1, hs2, hV', _⟩ := unitCap_layout unit V D hu hV hdig
+  have hline : A ++ '.' :: (unit ++ V ++ ':' :: D) = A ++ '.' :: (cap ++ V' ++ ':' :: D) := by
+    rw [happ]
+  rw [hline, parse_default_ok sec hsec A cap V' D hA hAdot hAcolon hcap hV' hD ?_,
+    postProcess_eq A cap V' D unit V hs1 hs2 hulast]
+  intro hcv
+  obtain ⟨h1, h2, h3⟩ := hcurves hcv
+  have hV1 : V.head? ≠ some '.' := by
+    intro h
+    exact absurd (hV '.' h) (by decide)
+  rw [happ]
+  exact findDotDot_prefix_none A unit V hAdot h1 h2 hulast hV1 h3
+
+/-! ### padded regions -/
+
+theorem head?_pad (P : Char → Prop) (a s b : Str) (ha : ∀ c ∈ a, P c) (hb : ∀ c ∈ b, P c)
+    (hs : s ≠ [] → a ≠ []) : ∀ c, (a ++ s ++ b).head? = some c → P c := by
+  intro c hc
+  cases a with
+  | cons x a =>
+    have : c = x := by simpa using hc.symm
+    subst this; exact ha c (by simp)
+  | nil =>
+    have hs' : s = [] := by
+      cases s with
+      | nil => rfl
+      | cons y s => exact absurd rfl (hs (by simp))
+    subst hs'
+    exact hb c (List.mem_of_mem_head? (by simpa using hc))
+
+theorem forall_mem_append3 {P : Char → Prop} (a s b : Str) (ha : ∀ c ∈ a, P c)
+    (hs : ∀ c ∈ s, P c) (hb : ∀ c ∈ b, P c) : ∀ c ∈ a ++ s ++ b, P c := by
+  intro c hc
+  rcases List.mem_append.mp hc with h | h
+  · rcases List.mem_append.mp h with h | h
+    · exact ha c h
+    · exact hs c h
+  · exact hb c h
+
+theorem two_le_length {l : Str} (h : 2 ≤ l.length) : ∃ b1 b2 l', l = b1 :: b2 :: l' := by
+  match l, h with
+  | b1 :: b2 :: l', _ => exact ⟨b1, b2, l', rfl⟩
+
+/-- in a padded region `a ++ s ++ b`, what follows the first character starts with a pad character
+whenever `s = []` or `2 ≤ a.length` -/
+theorem second_pad (P : Char → Prop) (a s b : Str) (ha : ∀ c ∈ a, P c) (hb : ∀ c ∈ b, P c)
+    (hs : s ≠ [] → 2 ≤ a.length) :
+    ∀ b1 V', a ++ s ++ b = b1 :: V' → ∀ c, V'.head? = some c → P c := by
+  intro b1 V' hV c hc
+  cases a with
+  | nil =>
+    have hs' : s = [] := by
+      cases s with
+      | nil => rfl
+      | cons y s => have := hs (by simp); simp at this
+    subst hs'
+    have hb' : b = b1 :: V' := by simpa using hV
+    apply hb; rw [hb']; exact List.mem_cons_of_mem _ (List.mem_of_mem_head? hc)
+  | cons x a =>
+    have hV' : V' = a ++ s ++ b := by
+      simp only [List.cons_append, List.cons.injEq] at hV; exact hV.2.symm
+    subst hV'
+    refine head?_pad P a s b (fun c h => ha c (by simp [h])) hb ?_ c hc
+    intro hne
+    have := hs hne
+    intro h; subst h; simp at this
+
+/-! ### the clock-time pattern of ~Parameter -/
+
+/-- continuation of the clock-time pattern after the unit fragment -/
+def contTime (line : Str) (n : Option Str) : Option Str × Str → Option Fields := fun ur =>
+  firstSome (valueTime ((line.take (line.length - ur.2.length)).reverse) ur.2) fun vr =>
+    firstSome (descRest vr.2) fun dr => some (postProcess n ur.1 vr.1 dr.1)
+
+theorem matchPattern_time_eq (line : Str) :
+    matchPattern ⟨.dflt, .dflt, .time, .rest⟩ line =
+      firstSome (nameDefault line) fun nr => firstSome (unitDefault nr.2) (contTime line nr.1) := rfl
+
+theorem take_consumed (X r : Str) : (X ++ r).take ((X ++ r).length - r.length) = X := by
+  have : (X ++ r).length - r.length = X.length := by simp
+  rw [this, List.take_left]
+
+theorem contTime_ok (line X V D : Str) (n u : Option Str) (hline : line = X ++ (V ++ ':' :: D))
+    (hV : ∀ c ∈ V, c ≠ ':') (hsep : sepOk ((X ++ V).reverse) D = true) :
+    contTime line n (u, V ++ ':' :: D) = some (postProcess n u (some V) (some D)) := by
+  unfold contTime
+  simp only [hline, take_consumed]
+  have hcs : ∃ tl, colonSplits (V ++ ':' :: D) = (V, D) :: tl := by
+    rw [colonSplits_append, colonSplits_nocolon V hV]
+    simp [colonSplits]
+  obtain ⟨tl, htl⟩ := hcs
+  have hsep' : sepOk (V.reverse ++ X.reverse) D = true := by simpa using hsep
+  simp only [valueTime, htl, List.filterMap_cons, hsep', ↓reduceIte]
+  apply firstSome_head
+  simp [descRest, firstSome]
+
+theorem contTime_nocolon (line : Str) (n u : Option Str) (r : Str) (h : ∀ c ∈ r, c ≠ ':') :
+    contTime line n (u, r) = none := by
+  unfold contTime
+  simp only [valueTime, colonSplits_nocolon r h]
+  rfl
+
+/-- on a line whose only colon fails the look-around, the clock-time continuation fails at every
+position -/
+theorem contTime_unique_fail (line P D X r : Str) (n u : Option Str)
+    (hline : line = P ++ ':' :: D) (hP : ∀ c ∈ P, c ≠ ':') (hD : ∀ c ∈ D, c ≠ ':')
+    (hsep : sepOk P.reverse D = false) (hX : line = X ++ r) :
+    contTime line n (u, r) = none := by
+  have hmain : ∀ c', P = X ++ c' → r = c' ++ ':' :: D → contTime line n (u, r) = none := by
+    intro c' hPc hr
+    have hc' : ∀ c ∈ c', c ≠ ':' := fun c h => hP c (by rw [hPc]; simp [h])
+    unfold contTime
+    simp only [hX, take_consumed]
+    have hcs : colonSplits r = [(c', D)] := by
+      rw [hr, colonSplits_last c' D hD, colonSplits_nocolon c' hc']; rfl
+    have hsep' : sepOk (c'.reverse ++ X.reverse) D = false := by
+      rw [← List.reverse_append, ← hPc]; exact hsep
+    simp only [valueTime, hcs, List.filterMap_cons, hsep']
+    rfl
+  have heq : P ++ ':' :: D = X ++ r := by rw [← hline, hX]
+  rcases List.append_eq_append_iff.mp heq with ⟨a', hXa, hr⟩ | ⟨c', hPc, hr⟩
+  · cases a' with
+    | nil => exact hmain [] (by simpa using hXa.symm) (by simpa using hr.symm)
+    | cons a a'' =>
+      have hD' : D = a'' ++ r := by
+        simp only [List.cons_append, List.cons.injEq] at hr; exact hr.2
+      exact contTime_nocolon _ _ _ _ (fun c h => hD c (by rw [hD']; simp [h]))
+  · exact hmain c' hPc hr
+
+/-- the clock-time pattern on `A . cap V : D` when the delimiter colon passes the look-around -/
+theorem matchPattern_time_ok (A cap V D : Str)
+    (hA : A ≠ []) (hAdot : ∀ c ∈ A, c ≠ '.')
+    (hcap : UnitCap cap (V ++ ':' :: D))
+    (hV : ∀ c, V.head? = some c → isPySpace c = true)
+    (hVc : ∀ c ∈ V, c ≠ ':')
+    (hD : V = [] → ∀ c ∈ D, c ≠ ':')
+    (hsep : sepOk ((A ++ '.' :: (cap ++ V)).reverse) D = true) :
+    matchPattern ⟨.dflt, .dflt, .time, .rest⟩ (A ++ '.' :: (cap ++ V ++ ':' :: D)) =
+      some (postProcess (some A) (some cap) (some V) (some D)) := by
+  rw [matchPattern_time_eq, nameDefault_split A _ hA hAdot, firstSome_singleton]
+  dsimp only
+  apply unitDefault_stage_colon cap V D _ _ hcap hV
+  · intro hVnil u d1 r hd
+    apply contTime_nocolon
+    intro c hc
+    exact hD hVnil c (by rw [hd]; simp [hc])
+  · apply contTime_ok _ (A ++ '.' :: cap) V D _ _ (by simp) hVc
+    simpa using hsep
+
+/-- the clock-time pattern fails on `A . R` when the only colon of the line fails the look-around -/
+theorem matchPattern_time_none (A R P D : Str)
+    (hA : A ≠ []) (hAdot : ∀ c ∈ A, c ≠ '.')
+    (hline : A ++ '.' :: R = P ++ ':' :: D) (hP : ∀ c ∈ P, c ≠ ':') (hD : ∀ c ∈ D, c ≠ ':')
+    (hsep : sepOk P.reverse D = false) :
+    matchPattern ⟨.dflt, .dflt, .time, .rest⟩ (A ++ '.' :: R) = none := by
+  rw [matchPattern_time_eq, nameDefault_split A _ hA hAdot, firstSome_singleton]
+  dsimp only
+  apply firstSome_all_none
+  intro ⟨u, r⟩ hur
+  obtain ⟨X, hX⟩ := unitDefault_mem R u r hur
+  exact contTime_unique_fail _ P D (A ++ '.' :: X) r _ _ hline hP hD hsep (by rw [hX]; simp)
+
+theorem sepOk_blank (b3 b4 : Char) (x y : Str) (h3 : IsBlank b3) (h4 : IsBlank b4) :
+    sepOk (b3 :: x) (b4 :: y) = true := by
+  have hlb : (match b3 :: x with
+    | c3 :: c2 :: c1 :: _ =>
+      (c1 == ' ' && ('0' ≤ c2 && c2 ≤ '2') && ('0' ≤ c3 && c3 ≤ '3')) ||
+      (c1 == ' ' && c2 == 'h' && c3 == 'h') || (c1 == ' ' && c2 == 'H' && c3 == 'H')
+    | _ => false) = false := by
+    rcases x with _ | ⟨c2, _ | ⟨c1, x⟩⟩
+    · rfl
+    · rfl
+    · rcases h3 with rfl | rfl <;> simp
+  have hla : (match b4 :: y with
+    | a1 :: a2 :: _ =>
+      (('0' ≤ a1 && a1 ≤ '5') && isAsciiDigit a2) || (a1 == 'm' && a2 == 'm') || (a1 == 'M' && a2 == 'M')
+    | _ => false) = false := by
+    rcases y with _ | ⟨a2, y⟩
+    · rfl
+    · rcases h4 with rfl | rfl <;> simp
+  unfold sepOk
+  simp only [hlb, hla]
+  rfl
 
 end Lasio
